@@ -34,7 +34,7 @@ class FakeNet:
             if req.full_url.endswith("/v2"):
                 adv = req.full_url
             if req.host in self.elsewhere:
-                adv = "https://svc-" + req.host.split("-", 1)[1] + "/ofx"
+                adv = "https://svc-" + req.host.split("-", 1)[1] + "/cgi-bin/OFX/Server.dll"      # as advertised: upper case in the path
             body = profile_bytes(T0, url=adv)
         r = urllib.response.addinfourl(io.BytesIO(body), msg, req.full_url, 200)
         r.msg = "OK"
@@ -94,7 +94,7 @@ def check_scenario(it, fn, a):
         if kind == "moved":
             adv[c] = urls[c] + "/v2"
         if kind == "elsewhere":
-            adv[c] = f"https://svc-{c.lower()}.example/ofx"
+            adv[c] = f"https://svc-{c.lower()}.example/cgi-bin/OFX/Server.dll"
         if kind == "dry":
             if nreq != 0:
                 problems.append(f"dry run of {c} sent {nreq} requests")
